@@ -332,6 +332,8 @@ func (in *Interp) toSQL(v value, t types.Type) sqlm.ParamVal {
 		return in.toSQL(x.v, x.t)
 	case string:
 		return nn(sqlm.KStr, c.StrConst(x))
+	case bstr:
+		return nn(sqlm.KStr, in.strTerm(x))
 	case timeVal:
 		return nn(sqlm.KTime, x.sec)
 	case *smt.Term:
